@@ -648,6 +648,13 @@ func (ex *explorer) common(o Outcome, p *pstate, mode string, b int, res *procRe
 				Witness: p.witness() + in, XState: m.StateString(p.x), YState: p.y.String(), Pos: parts[2]})
 		}
 	}
+	for _, n := range o.Notes {
+		if strings.HasPrefix(n, "pos-misassign:") {
+			parts := strings.SplitN(n, ":", 4)
+			res.dis = append(res.dis, Disagreement{Kind: "newline-unrecorded", Mode: mode, Byte: byteDesc(b), Detail: "position field " + parts[1] + " is set to " + parts[2] + " while the newline is the dispatched byte (off0+0): the column of later errors is counted from the wrong byte",
+				Witness: p.witness() + in, XState: m.StateString(p.x), YState: p.y.String(), Pos: parts[3]})
+		}
+	}
 	if b == '\n' && o.Kind == "next" && len(m.posFields) > 0 {
 		for f := range m.posFields {
 			if !o.Assigned[f] {
